@@ -389,6 +389,10 @@ type renderSpec struct {
 	Cells    int       `json:"cells"`
 	// v1
 	RCond float64 `json:"rcond"`
+	// v1: Simplify (absent = -1, simplification off) and LockVertices (absent = on): the class of the property is
+	// simplification off / lock on; other settings only occur in the value strata (construction paths, histories)
+	Simplify *float64 `json:"simplify,omitempty"`
+	NoLock   bool     `json:"no_lock,omitempty"`
 	// v2
 	FarAway    float64 `json:"far_away"`
 	CenterPush float64 `json:"center_push"`
@@ -401,8 +405,29 @@ func (rs renderSpec) key() string {
 	return "render:" + string(b)
 }
 
+// v1s: the settings (Simplify, RCond, LockVertices) of a V1 render spec.
+func (rs renderSpec) v1s() (float64, float64, bool) {
+	sim := -1.0
+	if rs.Simplify != nil {
+		sim = *rs.Simplify
+	}
+	return sim, rs.RCond, !rs.NoLock
+}
+
+// inClass: the settings the property is claimed for (V1: no simplification, vertices locked; V2: clamp 0..1/2).
+func (rs renderSpec) inClass() bool {
+	if rs.Renderer == "v1" {
+		sim, rc, lock := rs.v1s()
+		return sim < 0 && lock && rc >= 0 && rc < 1
+	}
+	return rs.FarAway >= 0 && rs.FarAway <= 0.5
+}
+
+// newV1 is the documented construction: the constructor, called with the settings.
+func newV1(rs renderSpec) *dc.DualContouringV1 { return dc.NewDualContouringV1(rs.v1s()) }
+
 func renderV1(s sdf.SDF3, rs renderSpec) []sdf.Triangle3 {
-	return renderV1With(dc.NewDualContouringV1(-1, rs.RCond, true), s, rs.Cells)
+	return renderV1With(newV1(rs), s, rs.Cells)
 }
 
 // renderV1With renders with the given renderer VALUE (it may have rendered before).
@@ -733,14 +758,13 @@ func checkRender(r *Report, stratum string, rs renderSpec) {
 	}
 	var t1, t2 []sdf.Triangle3
 	var lat lattice
-	bb := s.BoundingBox()
 	switch rs.Renderer {
 	case "v1":
 		t1 = renderV1(s, rs)
 		t2 = renderV1(s, rs)
-		m := dc.VerifV1Buffers(dc.NewDualContouringV1(-1, rs.RCond, true), s, rs.Cells)
-		o := dc.VerifV1LatticePoint(dc.NewDualContouringV1(-1, rs.RCond, true), s, rs.Cells, v3i.Vec{})
-		e := dc.VerifV1LatticePoint(dc.NewDualContouringV1(-1, rs.RCond, true), s, rs.Cells, m.CellCounts)
+		m := dc.VerifV1Buffers(newV1(rs), s, rs.Cells)
+		o := dc.VerifV1LatticePoint(newV1(rs), s, rs.Cells, v3i.Vec{})
+		e := dc.VerifV1LatticePoint(newV1(rs), s, rs.Cells, m.CellCounts)
 		lat = lattice{Min: o, Cells: m.CellCounts, Step: v3.Vec{X: (e.X - o.X) / float64(m.CellCounts.X), Y: (e.Y - o.Y) / float64(m.CellCounts.Y), Z: (e.Z - o.Z) / float64(m.CellCounts.Z)}}
 		if len(m.Indices) != 3*len(t1) {
 			r.Violate(key, fmt.Sprintf("Render sent %d triangles but the index buffer holds %d indices", len(t1), len(m.Indices)), rs)
@@ -756,7 +780,7 @@ func checkRender(r *Report, stratum string, rs renderSpec) {
 			r.Violate(key, "V1 "+why, rs)
 		}
 		// cell-exhaustive reference over the whole cubic octree lattice, sampled exactly where the octree samples
-		v1r := dc.NewDualContouringV1(-1, rs.RCond, true)
+		v1r := newV1(rs)
 		ms := m.MeshSize
 		if why := referenceDiff(v3i.Vec{X: ms, Y: ms, Z: ms}, func(i, j, k int) float64 {
 			return s.Evaluate(dc.VerifV1LatticePoint(v1r, s, rs.Cells, v3i.Vec{X: i, Y: j, Z: k}))
@@ -794,7 +818,16 @@ func checkRender(r *Report, stratum string, rs renderSpec) {
 	if ok, why := sameTriangles(t1, t2); !ok {
 		r.Violate(key, "two runs differ: "+why, rs)
 	}
-	// vertices: finite, inside the sampled box, inside a crossing cell, within one cell diagonal of the surface
+	for _, f := range meshFaults(s, lat, exact, rs.Shape.overEstimates(), t1) {
+		r.Violate(key, f, rs)
+	}
+}
+
+// meshFaults applies the direct oracles of the property to a triangle list: vertices finite, inside the sampled
+// box, inside a lattice cell with a sign change and within one cell diagonal of the surface (the first vertex at
+// fault is reported alone); then closed after identifying coincident vertices, positive enclosed volume.
+func meshFaults(s sdf.SDF3, lat lattice, exact, over bool, t1 []sdf.Triangle3) []string {
+	bb := s.BoundingBox()
 	diag := lat.diag()
 	tol := 1e-9
 	seen := map[vkey]bool{}
@@ -806,25 +839,22 @@ func checkRender(r *Report, stratum string, rs renderSpec) {
 			}
 			seen[vk(v)] = true
 			if !finiteV(v) {
-				r.Violate(key, fmt.Sprintf("triangle %d has a non-finite vertex %v", ti, v), rs)
-				return
+				return []string{fmt.Sprintf("triangle %d has a non-finite vertex %v", ti, v)}
 			}
 			sz := bb.Size()
 			if v.X < bb.Min.X-tol*sz.X || v.Y < bb.Min.Y-tol*sz.Y || v.Z < bb.Min.Z-tol*sz.Z ||
 				v.X > bb.Max.X+tol*sz.X || v.Y > bb.Max.Y+tol*sz.Y || v.Z > bb.Max.Z+tol*sz.Z {
-				r.Violate(key, fmt.Sprintf("vertex %v of triangle %d is outside the sampled box %v", v, ti, bb), rs)
-				return
+				return []string{fmt.Sprintf("vertex %v of triangle %d is outside the sampled box %v", v, ti, bb)}
 			}
-			if d := math.Abs(s.Evaluate(v)); !rs.Shape.overEstimates() && d > diag*(1+1e-9) {
-				r.Violate(key, fmt.Sprintf("vertex %v of triangle %d: |f| = %g exceeds one cell diagonal %g (exact sdf: %v)", v, ti, d, diag, exact), rs)
-				return
+			if d := math.Abs(s.Evaluate(v)); !over && d > diag*(1+1e-9) {
+				return []string{fmt.Sprintf("vertex %v of triangle %d: |f| = %g exceeds one cell diagonal %g (exact sdf: %v)", v, ti, d, diag, exact)}
 			}
 			if !lat.inCrossingCell(s, v, 1e-6) {
-				r.Violate(key, fmt.Sprintf("vertex %v of triangle %d lies in no lattice cell with a sign change (cell size %v)", v, ti, lat.Step), rs)
-				return
+				return []string{fmt.Sprintf("vertex %v of triangle %d lies in no lattice cell with a sign change (cell size %v)", v, ti, lat.Step)}
 			}
 		}
 	}
+	var faults []string
 	// closed after identifying coincident vertices
 	cnt := map[[2]vkey]int{}
 	for _, t := range t1 {
@@ -839,7 +869,7 @@ func checkRender(r *Report, stratum string, rs renderSpec) {
 		}
 	}
 	if nbad > 0 {
-		r.Violate(key, fmt.Sprintf("mesh not closed: %d directed edges (of %d) without matching reverse after identifying coincident vertices; %d triangles", nbad, len(cnt), len(t1)), rs)
+		faults = append(faults, fmt.Sprintf("mesh not closed: %d directed edges (of %d) without matching reverse after identifying coincident vertices; %d triangles", nbad, len(cnt), len(t1)))
 	}
 	// oriented outward: positive enclosed volume
 	vol := 0.0
@@ -848,8 +878,277 @@ func checkRender(r *Report, stratum string, rs renderSpec) {
 		vol += t[0].Sub(c0).Dot(t[1].Sub(c0).Cross(t[2].Sub(c0))) / 6
 	}
 	if !(vol > 0) {
-		r.Violate(key, fmt.Sprintf("signed volume %g is not positive (%d triangles)", vol, len(t1)), rs)
+		faults = append(faults, fmt.Sprintf("signed volume %g is not positive (%d triangles)", vol, len(t1)))
 	}
+	return faults
+}
+
+// ---------------------------------------------------------------- renderer VALUES: construction paths and histories
+
+// valueSpec: ONE renderer value, obtained along a construction path, renders a sequence of shapes that all have
+// the same sampled box (hence, with the same cell count, the same sampling lattice).  The exported fields of both
+// renderer types are public API: a value can be a zero value or a struct literal, have fields assigned after
+// construction or after use, and be copied.  Whatever the path, a value whose fields hold the settings R must
+// render every shape of the sequence exactly like a fresh value made by the constructor with those settings.
+type valueSpec struct {
+	R      renderSpec  `json:"r"`               // renderer, cells and the settings the value under test ends up with (R.Shape unused)
+	Path   string      `json:"path"`            // construction path, see buildV1 / buildV2
+	Box    []float64   `json:"box"`             // the common sampled box
+	Prev   *shapeSpec  `json:"prev,omitempty"`  // rendered by the original before the copy / the assignments (paths *-used*)
+	Shapes []shapeSpec `json:"shapes"`          // rendered in this order by the one value
+	Cells  []int       `json:"cells,omitempty"` // V1: meshCells of each call (absent: R.Cells)
+}
+
+func (vs valueSpec) key() string {
+	b, _ := json.Marshal(vs)
+	return "value:" + string(b)
+}
+
+var v1Paths = []string{"new", "literal", "zero", "zero-set", "new-set", "copy", "copy-used", "used-set"}
+var v2Paths = []string{"new", "default", "new-set", "copy", "copy-used", "used-set", "literal", "zero"}
+
+// buildV1 makes a V1 value holding the settings of rs along the named path.
+func buildV1(path string, rs renderSpec, prev sdf.SDF3) (*dc.DualContouringV1, error) {
+	sim, rc, lock := rs.v1s()
+	switch path {
+	case "new":
+		return dc.NewDualContouringV1(sim, rc, lock), nil
+	case "literal":
+		return &dc.DualContouringV1{Simplify: sim, RCond: rc, LockVertices: lock}, nil
+	case "zero": // the generator gives rs the settings of the zero value
+		if sim != 0 || rc != 0 || lock {
+			return nil, fmt.Errorf("path zero with settings %v %v %v", sim, rc, lock)
+		}
+		var v dc.DualContouringV1
+		return &v, nil
+	case "zero-set":
+		var v dc.DualContouringV1
+		v.LockVertices, v.RCond, v.Simplify = lock, rc, sim
+		return &v, nil
+	case "new-set": // constructed with other settings, fields assigned afterwards
+		v := dc.NewDualContouringV1(0.25, 0.3, !lock)
+		v.Simplify, v.RCond, v.LockVertices = sim, rc, lock
+		return v, nil
+	case "copy":
+		v := *dc.NewDualContouringV1(sim, rc, lock)
+		return &v, nil
+	case "copy-used": // copy of a value that has rendered
+		o := dc.NewDualContouringV1(sim, rc, lock)
+		if prev != nil {
+			renderV1With(o, prev, rs.Cells)
+		}
+		v := *o
+		return &v, nil
+	case "used-set": // a value that has rendered with another RCond gets RCond assigned (0 = back to the default)
+		o := dc.NewDualContouringV1(sim, 0.2, lock)
+		if prev != nil {
+			renderV1With(o, prev, rs.Cells)
+		}
+		o.RCond = rc
+		return o, nil
+	}
+	return nil, fmt.Errorf("unknown construction path %q", path)
+}
+
+func v2Knobs(rs renderSpec) (float64, float64, float64, int) {
+	if len(rs.Raycast) == 4 {
+		return rs.Raycast[0], rs.Raycast[1], rs.Raycast[2], int(rs.Raycast[3])
+	}
+	return 0, 1, 1e-4, 1000
+}
+
+// buildV2 makes a V2 value holding the settings of rs along the named path.  The cell count is an unexported
+// field: a literal or zero value has 0 cells (the generator then gives rs.Cells = 0, the reference is the constructor
+// called with 0 cells) and renders nothing.
+func buildV2(path string, rs renderSpec, prev sdf.SDF3) (*dc.DualContouringV2, error) {
+	k0, k1, k2, k3 := v2Knobs(rs)
+	set := func(v *dc.DualContouringV2) {
+		v.RaycastMaxSteps, v.RaycastEpsilon, v.RaycastStepScale, v.RaycastScaleAndSigmoid = k3, k2, k1, k0
+		v.CenterPush, v.FarAway = rs.CenterPush, rs.FarAway
+	}
+	switch path {
+	case "new":
+		return newV2(rs), nil
+	case "default": // the generator gives rs the documented default settings
+		if rs.FarAway != 0.499999 || rs.CenterPush != 0.01 || len(rs.Raycast) != 0 {
+			return nil, fmt.Errorf("path default with other settings")
+		}
+		return dc.NewDualContouringDefault(rs.Cells), nil
+	case "literal", "zero":
+		if rs.Cells != 0 {
+			return nil, fmt.Errorf("a V2 literal has 0 cells")
+		}
+		if path == "zero" {
+			var v dc.DualContouringV2
+			return &v, nil
+		}
+		return &dc.DualContouringV2{FarAway: rs.FarAway, CenterPush: rs.CenterPush, RaycastScaleAndSigmoid: k0,
+			RaycastStepScale: k1, RaycastEpsilon: k2, RaycastMaxSteps: k3}, nil
+	case "new-set":
+		v := dc.NewDualContouringV2(0.3, 0.5, 1, 0.5, 1e-3, 77, rs.Cells)
+		set(v)
+		return v, nil
+	case "copy":
+		v := *newV2(rs)
+		return &v, nil
+	case "copy-used":
+		o := newV2(rs)
+		if prev != nil {
+			renderV2With(o, prev)
+		}
+		v := *o
+		return &v, nil
+	case "used-set":
+		o := dc.NewDualContouringV2(0.3, 0.5, 1, 0.5, 1e-3, 77, rs.Cells)
+		if prev != nil {
+			renderV2With(o, prev)
+		}
+		set(o)
+		return o, nil
+	}
+	return nil, fmt.Errorf("unknown construction path %q", path)
+}
+
+// guarded runs a render and turns a panic into a text (a value built without the constructor may be rejected).
+func guarded(f func() []sdf.Triangle3) (out []sdf.Triangle3, panicked string) {
+	defer func() {
+		if e := recover(); e != nil {
+			out, panicked = nil, fmt.Sprint(e)
+		}
+	}()
+	return f(), ""
+}
+
+// latticeOf: the sampling lattice the constructor-built renderer of rs uses on s.
+func latticeOf(rs renderSpec, s sdf.SDF3) lattice {
+	if rs.Renderer == "v1" {
+		m := dc.VerifV1Buffers(newV1(rs), s, rs.Cells)
+		o := dc.VerifV1LatticePoint(newV1(rs), s, rs.Cells, v3i.Vec{})
+		e := dc.VerifV1LatticePoint(newV1(rs), s, rs.Cells, m.CellCounts)
+		return lattice{Min: o, Cells: m.CellCounts, Step: v3.Vec{X: (e.X - o.X) / float64(m.CellCounts.X), Y: (e.Y - o.Y) / float64(m.CellCounts.Y), Z: (e.Z - o.Z) / float64(m.CellCounts.Z)}}
+	}
+	m := dc.VerifV2Buffers(newV2(rs), s)
+	return lattice{Min: m.BoxMin, Step: m.CellSize, Cells: m.Cells}
+}
+
+func checkValue(r *Report, stratum string, vs valueSpec) {
+	key := vs.key()
+	build := func(sp shapeSpec) (sdf.SDF3, bool, error) {
+		sp.Box = vs.Box
+		return buildShape(sp)
+	}
+	var prev sdf.SDF3
+	if vs.Prev != nil {
+		var err error
+		if prev, _, err = build(*vs.Prev); err != nil {
+			r.Violate(key, "harness: cannot build shape: "+err.Error(), vs)
+			return
+		}
+	}
+	var buf strings.Builder
+	log.SetOutput(&buf)
+	defer log.SetOutput(io.Discard)
+	v1 := vs.R.Renderer == "v1"
+	var val1 *dc.DualContouringV1
+	var val2 *dc.DualContouringV2
+	var err error
+	var rejected string
+	func() {
+		defer func() {
+			if e := recover(); e != nil {
+				rejected = fmt.Sprint(e)
+			}
+		}()
+		if v1 {
+			val1, err = buildV1(vs.Path, vs.R, prev)
+		} else {
+			val2, err = buildV2(vs.Path, vs.R, prev)
+		}
+	}()
+	if err != nil || rejected != "" {
+		r.Violate(key, fmt.Sprintf("harness: cannot construct the renderer value: %v %s", err, rejected), vs)
+		return
+	}
+	nontrivial := false
+	for i, sp := range vs.Shapes {
+		s, exact, err := build(sp)
+		if err != nil {
+			r.Violate(key, "harness: cannot build shape: "+err.Error(), vs)
+			return
+		}
+		rs := vs.R
+		rs.Shape = sp
+		rs.Shape.Box = vs.Box
+		if v1 && i < len(vs.Cells) {
+			rs.Cells = vs.Cells[i]
+		}
+		var used, fresh []sdf.Triangle3
+		var pu, pf string
+		if v1 {
+			used, pu = guarded(func() []sdf.Triangle3 { return renderV1With(val1, s, rs.Cells) })
+			fresh, pf = guarded(func() []sdf.Triangle3 { return renderV1(s, rs) })
+		} else {
+			used, pu = guarded(func() []sdf.Triangle3 { return renderV2With(val2, s) })
+			fresh, pf = guarded(func() []sdf.Triangle3 { return renderV2(s, rs) })
+		}
+		what := fmt.Sprintf("call %d (%s, %d cells) of a %s value with construction path %q", i+1, sp.Name, rs.Cells, rs.Renderer, vs.Path)
+		if len(fresh) > 0 {
+			nontrivial = true
+		}
+		// the fresh constructor-built value rendering right after another value sampled the same lattice: the
+		// oracles of the property (state shared between values shows here)
+		var lat lattice
+		haveLat := false
+		if rs.inClass() && pf == "" && rs.Cells > 0 {
+			lat, haveLat = latticeOf(rs, s), true
+			if len(fresh) == 0 {
+				r.Violate(key, what+": the fresh constructor-built value gives no triangle at all", vs)
+			}
+			for _, f := range meshFaults(s, lat, exact, sp.overEstimates(), fresh) {
+				r.Violate(key, what+": mesh of the fresh constructor-built value: "+f, vs)
+			}
+		}
+		if pu != pf {
+			r.Violate(key, fmt.Sprintf("%s: panic %q, the fresh constructor-built value: panic %q", what, pu, pf), vs)
+			continue
+		}
+		if ok, why := sameTriangles(fresh, used); !ok {
+			msg := what + " differs from a fresh constructor-built value with the same settings (first = fresh, second = value under test): " + why
+			if haveLat {
+				if fs := meshFaults(s, lat, exact, sp.overEstimates(), used); len(fs) > 0 {
+					msg += "; mesh of the value under test: " + strings.Join(fs, "; ")
+				}
+			} else if len(used) > 0 {
+				// outside the class no oracle is claimed; describe the mesh all the same
+				msg += "; mesh of the value under test: " + describeMesh(s, used)
+			}
+			r.Violate(key, msg, vs)
+		}
+	}
+	r.Case("value/"+stratum, key, nontrivial)
+}
+
+// describeMesh: enclosed volume and number of vertices outside the sampled box (for messages only).
+func describeMesh(s sdf.SDF3, ts []sdf.Triangle3) string {
+	bb := s.BoundingBox()
+	c0 := bb.Center()
+	vol, out, bad := 0.0, 0, 0
+	seen := map[vkey]bool{}
+	for _, t := range ts {
+		vol += t[0].Sub(c0).Dot(t[1].Sub(c0).Cross(t[2].Sub(c0))) / 6
+		for k := 0; k < 3; k++ {
+			if seen[vk(t[k])] {
+				continue
+			}
+			seen[vk(t[k])] = true
+			if !finiteV(t[k]) {
+				bad++
+			} else if !bb.Contains(t[k]) {
+				out++
+			}
+		}
+	}
+	return fmt.Sprintf("%d triangles, %d vertices, %d not finite, %d outside the sampled box, signed volume %g", len(ts), len(seen), bad, out, vol)
 }
 
 // ---------------------------------------------------------------- corpus
@@ -859,6 +1158,7 @@ type corpus struct {
 	GridsV2 []signGrid   `json:"grids_v2"`
 	Renders []renderSpec `json:"renders"`
 	States  []stateSpec  `json:"states"`
+	Values  []valueSpec  `json:"values"`
 }
 
 func log2(n int) int {
@@ -1247,6 +1547,12 @@ func check(c *Ctx, r *Report) error {
 				}
 				n := 0
 				checkState(r, "replay", st, &n)
+			case strings.HasPrefix(fi.Key, "value:"):
+				var vs valueSpec
+				if err := json.Unmarshal(fi.Input, &vs); err != nil {
+					return err
+				}
+				checkValue(r, "replay", vs)
 			case strings.HasPrefix(fi.Key, "render:"):
 				var rs renderSpec
 				if err := json.Unmarshal(fi.Input, &rs); err != nil {
@@ -1504,6 +1810,86 @@ func check(c *Ctx, r *Report) error {
 		checkState(r, st.A.Renderer, st, &fallbackSeen)
 	}
 	r.Coverage["state_cases_with_raycast_fallback"] = fallbackSeen
+
+	// ---- renderer VALUES: every construction path the exported fields allow x every setting, and histories of one
+	// value over shapes that share the sampled box (so the sampling lattices coincide point for point)
+	for _, vs := range cp.Values {
+		checkValue(r, "corpus", vs)
+	}
+	commonBox := func() []float64 {
+		j := func() float64 { return 0.02 * float64(rng.Intn(10)) }
+		return []float64{-2.05 - j(), -2.05 - j(), -2.05 - j(), 2.05 + j(), 2.05 + j(), 2.05 + j()}
+	}
+	boxedShape := func() shapeSpec { // surface well inside [-2.05,2.05]^3
+		switch rng.Intn(8) {
+		case 0:
+			return shapeSpec{Name: "origin-sphere", Params: []float64{0.6 + 0.8*rng.Float()}}
+		case 1:
+			return shapeSpec{Name: "sphere", Params: []float64{0.6 + 0.6*rng.Float(), rng.Uniform(-0.3, 0.3), rng.Uniform(-0.3, 0.3), rng.Uniform(-0.3, 0.3)}}
+		case 2, 3: // flat faces in general position: normals of a cell nearly, not exactly, rank deficient
+			return shapeSpec{Name: "rotbox", Params: []float64{1 + rng.Float(), 1 + rng.Float(), 0.7 + rng.Float(), rng.Uniform(0, 3), rng.Uniform(0, 3), rng.Uniform(0, 3)}}
+		case 4:
+			return shapeSpec{Name: "box", Params: []float64{1 + rng.Float(), 1 + rng.Float(), 0.7 + rng.Float()}, Centre: []float64{rng.Uniform(-0.3, 0.3), rng.Uniform(-0.3, 0.3), rng.Uniform(-0.3, 0.3)}}
+		case 5:
+			return shapeSpec{Name: "roundbox", Params: []float64{1.2 + rng.Float(), 1.2 + rng.Float(), 1 + rng.Float(), 0.1 + 0.2*rng.Float()}}
+		case 6:
+			return shapeSpec{Name: "cylinder-hole"}
+		}
+		return shapeSpec{Name: "difference"}
+	}
+	nv := TierN(c.Tier, 48, 480, 144)
+	for k := 0; k < nv; k++ {
+		vs := valueSpec{Box: commonBox()}
+		vs.R.Cells = []int{12, 16, 20, 13}[rng.Intn(4)]
+		if k%2 == 0 {
+			vs.R.Renderer = "v1"
+			vs.Path = v1Paths[(k/2)%len(v1Paths)]
+			vs.R.RCond = []float64{0, 0, 1e-3, 0.1}[rng.Intn(4)]
+			vs.R.NoLock = rng.Intn(5) < 2
+			if rng.Intn(6) == 0 { // simplification on: outside the class, compared with the constructor-built value only
+				sim := []float64{0, 0.01}[rng.Intn(2)]
+				vs.R.Simplify = &sim
+			}
+			if vs.Path == "zero" {
+				sim := 0.0
+				vs.R.Simplify, vs.R.RCond, vs.R.NoLock = &sim, 0, true
+			}
+		} else {
+			vs.R.Renderer = "v2"
+			vs.Path = v2Paths[(k/2)%len(v2Paths)]
+			vs.R.FarAway = []float64{0.499999, 0.25, 0.5}[rng.Intn(3)]
+			vs.R.CenterPush = []float64{0.01, 0.1, 0, 1}[rng.Intn(4)]
+			vs.R.Raycast = knobs[rng.Intn(len(knobs))]
+			switch vs.Path {
+			case "default":
+				vs.R.FarAway, vs.R.CenterPush, vs.R.Raycast = 0.499999, 0.01, nil
+			case "literal":
+				vs.R.Cells = 0
+			case "zero":
+				vs.R.Cells, vs.R.FarAway, vs.R.CenterPush, vs.R.Raycast = 0, 0, 0, []float64{0, 0, 0, 0}
+			}
+		}
+		n := 1 + rng.Intn(2)
+		if vs.Path == "new" { // the history dimension alone: one constructor-built value, 3..4 shapes on one lattice
+			n = 3 + rng.Intn(2)
+		}
+		for i := 0; i < n; i++ {
+			vs.Shapes = append(vs.Shapes, boxedShape())
+		}
+		if n >= 3 && rng.Intn(2) == 0 { // ... coming back to the first shape
+			vs.Shapes[n-1] = vs.Shapes[0]
+		}
+		if strings.Contains(vs.Path, "used") {
+			p := boxedShape()
+			vs.Prev = &p
+		}
+		if vs.R.Renderer == "v1" && rng.Intn(4) == 0 { // the V1 cell count is an argument of Render: vary it per call
+			for i := 0; i < n; i++ {
+				vs.Cells = append(vs.Cells, []int{8, 12, 16, 11}[rng.Intn(4)])
+			}
+		}
+		checkValue(r, vs.R.Renderer+"/"+vs.Path, vs)
+	}
 
 	r.Rule = "grid cases: sign assignments on small lattices (V2: 1..7 cells per axis, V1: octree depth 1..3, 4 in the long tiers; V1 also on non-cubic volumes of 2/4/8 (16) cells per axis inside the cubic octree, compared with the model over the octree pruned by Populate's filter, one third of them with the sign lattice extended over the padding beyond the volume so that the filter stops nodes that are NOT dead and the pruned model has to drop the same triangles - outside the class, correspondence only) in strata empty / single solid point / sparse / half / dense / full interior / checkerboard / union of boxes (all with outside boundary) and boundary-solid (outside the class, correspondence only), realised by a trilinear lattice field and rendered by the real code; the triangle list in cell indices is compared, in order, with the Gallina model evaluated on the same grid; non-trivial = at least one triangle, distinct by (lattice size, sign bits). render cases: sphere, box, rotated box, rounded box, box minus sphere, cylinder minus cylinder, union of spheres, each in an asymmetrically enlarged box, 6..27 (40) cells, V1 (lock on, no simplification, three rcond values) and V2 (FarAway in {0.25,0.4,0.499999,0.5}, CenterPush in {0.01,0.1,1}); non-trivial = produced triangles, distinct by full parameter record. aligned strata: boxes and spheres with faces/poles on lattice planes, dyadic and NON-dyadic steps (0.15, 0.05, 0.07, any two-decimal step), centred and translated, 8/16/32 cells, cubic and 2:1:1 volumes; for these and every render case the index-space mesh from the hooks must be closed and all voxels sharing a lattice corner must agree on its sign. v2-nopush / v2-knobs: V2 with CenterPush = 0 (or 1e-6..5), FarAway 0.1..0.5 and five ray-cast knob settings on boxes, cylinders, L prisms, CSG; non-lipschitz: spheres, boxes, rotated boxes, cylinders scaled by 0.3..0.6 per axis (or one axis only), bars twisted 2.5..4.5 rad over height 2, extrusions tapered to 0.2..0.5, V1 and V2 - the |f(v)| <= diagonal oracle is waived there (f is no distance bound), every other oracle applies. Every render case: all lattice points are evaluated and the index triangles compared as a multiset with one oriented quad per sign-changing interior lattice edge (skipped when a lattice value is within 1e-12 of zero; counted in reference_compared/skipped). v2-solver: 1..9 planes with unit normals (generic, three planes, axis-parallel with zero rows/columns with and without push, rank 1, rank 2, singular three-plane systems, guard threshold diag(1,1,1e-12 +- 1ulp), times 1e60..1e200 and 1e-3..1e-160), result compared bit for bit with the float model and required to be a finite point or the +Inf refusal (moderate scales). state cases: ONE renderer value renders a non-uniformly scaled shape twice (sdf.Scale3d: the field over-estimates distance, the V2 ray cast fails and the warn-once flags get set; counted in state_cases_with_raycast_fallback) and then a plain shape, compared bit for bit with itself and with a fresh renderer; V1 and V2, all settings."
 	r.Trusted = append(r.Trusted,
